@@ -430,7 +430,7 @@ func (ce *vConnEngine) settle() {
 }
 
 func vRunConn(c vCase) []string {
-	ce := &vConnEngine{ev: &vEvents{}, t0: time.Now(), hang: make(chan struct{}), connHang: make(chan struct{}), discHang: make(chan struct{}), cmds: map[string]*vCmd{}, goCmd: map[int64]vGoCmd{}}
+	ce := &vConnEngine{ev: &vEvents{}, t0: time.Now(), hang: make(chan struct{}, 1), connHang: make(chan struct{}, 1), discHang: make(chan struct{}, 1), cmds: map[string]*vCmd{}, goCmd: map[int64]vGoCmd{}}
 	if s := c.get("dials"); s != "" && s != "-" {
 		ce.dials = strings.Split(s, ",")
 	}
@@ -604,6 +604,10 @@ func vRunConn(c vCase) []string {
 			ce.ev.add("fastforward/t=%d", ce.ms())
 			ce.conn.FastForwardConnectDelayTimer()
 		case "holdconnect":
+			select {
+			case <-ce.connHang:
+			default:
+			}
 			atomic.StoreInt32(&ce.holdConn, 1)
 		case "releaseconnect":
 			atomic.StoreInt32(&ce.holdConn, 0)
@@ -612,6 +616,10 @@ func vRunConn(c vCase) []string {
 			default:
 			}
 		case "holddisc":
+			select {
+			case <-ce.discHang:
+			default:
+			}
 			atomic.StoreInt32(&ce.holdDisc, 1)
 		case "releasedisc":
 			atomic.StoreInt32(&ce.holdDisc, 0)
@@ -620,6 +628,12 @@ func vRunConn(c vCase) []string {
 			default:
 			}
 		case "holddial":
+			// (the release channels hold one token: a release that arrives after the held party took the flag and before it
+			// reaches its receive must not be lost; a stale token is drained here)
+			select {
+			case <-ce.hang:
+			default:
+			}
 			atomic.StoreInt32(&ce.holdNext, 1)
 		case "waitdelay": // waitdelay/<n>: n connect delays have ended
 			n, _ := strconv.Atoi(f[1])
@@ -759,6 +773,8 @@ func vConnCases(t *testing.T) {
 					out.printf("conn %s ev=%s", c.id, strings.Join(evs, ";"))
 				})
 			}()
+		case "slowdial":
+			vGuard(out, c.kind, c.id, func() { out.printf("slowdial %s %s", c.id, vRunSlowDial(c)) })
 		case "ctrans":
 			vGuard(out, c.kind, c.id, func() {
 				mk := func(d *vScriptDialable) ConnectionTransport {
@@ -786,6 +802,96 @@ func vConnCases(t *testing.T) {
 }
 
 func TestVerifC14(t *testing.T) { vConnCases(t) }
+
+// vHeldDialable: a Dialable whose Dial does not return until released (a network that takes its time)
+type vHeldDialable struct {
+	gate    chan struct{}
+	entered chan struct{}
+	once    sync.Once
+}
+
+func (d *vHeldDialable) SetOpts(time.Duration, time.Duration) {}
+func (d *vHeldDialable) Dial(ctx context.Context, network, addr string) (net.Conn, error) {
+	d.once.Do(func() { close(d.entered) })
+	select {
+	case <-d.gate:
+	case <-time.After(8 * time.Second):
+	}
+	return nil, errVRetriableDial
+}
+
+// vRunSlowDial: a Connection over one of the BUILT-IN connection transports (plain or TLS) whose dial is slow; a command that
+// started the sequence and a command submitted during the dial both have their contexts end: each must return promptly
+// with its context's error, and IsConnected must answer meanwhile.
+func vRunSlowDial(c vCase) string {
+	d := &vHeldDialable{gate: make(chan struct{}), entered: make(chan struct{})}
+	h := &vConnEngine{ev: &vEvents{}, t0: time.Now(), cmds: map[string]*vCmd{}, goCmd: map[int64]vGoCmd{}}
+	opts := ConnectionOpts{DontConnectNow: true}
+	lf := NewSimpleLogFactory(vQuietOutput{}, vQuietOpts{})
+	var conn *Connection
+	if c.get("kind") == "tls" {
+		p := vMakePKI()
+		conn = NewTLSConnectionWithDialable(NewFixedRemote("srv.test:443"), p.caPEM["ca1"], nil, h, lf, nil, vQuietOutput{}, 1<<20, opts, d)
+	} else {
+		uri, _ := ParseFMPURI("fmprpc://srv.test:443")
+		conn = NewConnectionWithTransport(h, NewConnectionTransportWithDialable(uri, lf, nil, nil, 1<<20, d), nil, vQuietOutput{}, opts)
+	}
+	h.conn = conn
+	type res struct {
+		cls string
+		ms  int64
+	}
+	run := func(how string) chan res {
+		ch := make(chan res, 1)
+		go func() {
+			ctx, cancel := context.WithCancel(context.Background())
+			if how == "timeout" {
+				ctx, cancel = context.WithTimeout(context.Background(), 40*time.Millisecond)
+			} else {
+				time.AfterFunc(40*time.Millisecond, cancel)
+			}
+			defer cancel()
+			t0 := time.Now()
+			err := conn.DoCommand(ctx, "verif", 0, func(GenericClient) error { return nil })
+			ch <- res{vErrClassConn(err), time.Since(t0).Milliseconds()}
+		}()
+		return ch
+	}
+	a := run(c.get("how"))
+	select {
+	case <-d.entered:
+	case <-time.After(3 * time.Second):
+	}
+	time.Sleep(5 * time.Millisecond)
+	b := run(c.get("how"))
+	t0 := time.Now()
+	icDone := make(chan struct{})
+	go func() { conn.IsConnected(); close(icDone) }()
+	get := func(ch chan res) res {
+		select {
+		case r := <-ch:
+			return r
+		case <-time.After(3 * time.Second):
+			return res{"blocked", 3000}
+		}
+	}
+	ra, rb := get(a), get(b)
+	icms := int64(-1)
+	select {
+	case <-icDone:
+		icms = time.Since(t0).Milliseconds()
+	case <-time.After(2 * time.Second):
+	}
+	close(d.gate)
+	done := make(chan struct{})
+	go func() { conn.Shutdown(); close(done) }()
+	select {
+	case <-done:
+	case <-time.After(3 * time.Second):
+	}
+	return fmt.Sprintf("a=%s ams=%d b=%s bms=%d isconnectedms=%d", ra.cls, ra.ms, rb.cls, rb.ms, icms)
+}
+
 func TestVerifC15(t *testing.T) { vConnCases(t) }
 func TestVerifC16(t *testing.T) { vConnCases(t) }
 
